@@ -1,8 +1,11 @@
 (* C19 -- quiescence search is an exact, sound alpha-beta over the capture tree.
    qsearch: model of src/search/qsearch.rs (Search.v); qvalue: unpruned negamax value of the capture-only game
-   (spec/GameTree.v): stand pat or any legal capture.  Proofs in proofs/AlphaBeta.v and proofs/SearchFacts.v. *)
+   (spec/GameTree.v): stand pat or any legal capture.  Proofs in proofs/AlphaBeta.v and proofs/SearchFacts.v.
+   The fuel is no hypothesis (proofs/FuelFacts.v): every capture removes a man, so on a position satisfying the invariant the
+   quiescence search and the unpruned value are defined for every fuel above 32 (the total number of men), do not depend on
+   it, and the three clauses hold for the value `qval p` so defined (C19_qsearch_sound_total). *)
 From Coq Require Import NArith ZArith List Bool.
-From Rawr Require Import Consts Bits Magic Position MoveGen MakeMove Eval TT Search GameTree AlphaBeta SearchFacts.
+From Rawr Require Import Consts Bits Magic Position MoveGen MakeMove Eval TT Search MakeStages GameTree AlphaBeta SearchFacts Closure MenCount EpRetro FuelFacts.
 Local Open Scope Z_scope.
 
 (* for every position, every window alpha < beta, every amount of fuel on which both computations finish:
@@ -20,6 +23,27 @@ Proof. exact qsearch_full_window_exact. Qed.
 Theorem C19_ordering_is_permutation : forall p ms, Permutation.Permutation (sort_q p ms) ms.
 Proof. exact sort_q_perm. Qed.
 
+(* ---- without "on which both computations finish": termination by the number of men, independence of the fuel *)
+Theorem C19_qsearch_terminates : forall p st a b ply fuel, Inv16R p -> (32 < fuel)%nat -> qsearch fuel p st a b ply <> None.
+Proof. exact qsearch_total_33. Qed.
+Theorem C19_result_does_not_depend_on_fuel : forall f f' p st a b ply, Inv16R p -> (32 < f)%nat -> (32 < f')%nat ->
+  qsearch f p st a b ply = qsearch f' p st a b ply.
+Proof. exact qsearch_fuel_indep. Qed.
+Theorem C19_qsearch_sound_total : forall fuel p st alpha beta ply, Inv16R p -> (32 < fuel)%nat -> alpha < beta ->
+  exists v st', qsearch fuel p st alpha beta ply = Some (v, st') /\
+    (alpha < v < beta -> v = qval p) /\ (v <= alpha -> qval p <= v) /\ (beta <= v -> v <= qval p).
+Proof. exact qsearch_sound_total. Qed.
+Theorem C19_full_window_exact_total : forall fuel p st ply, Inv16R p -> (32 < fuel)%nat -> - QINF < qval p < QINF ->
+  exists st', qsearch fuel p st (- QINF) QINF ply = Some (qval p, st').
+Proof. exact qsearch_full_window_total. Qed.
+Theorem C19_a_capture_removes_a_man : forall u p m, Inv0 p -> In m (legal_captures p) -> (men (makemove u p m) < men p)%N.
+Proof. exact capture_fewer_men. Qed.
+
 Print Assumptions C19_qsearch_sound.
 Print Assumptions C19_full_window_exact.
 Print Assumptions C19_ordering_is_permutation.
+Print Assumptions C19_qsearch_terminates.
+Print Assumptions C19_result_does_not_depend_on_fuel.
+Print Assumptions C19_qsearch_sound_total.
+Print Assumptions C19_full_window_exact_total.
+Print Assumptions C19_a_capture_removes_a_man.
